@@ -6,7 +6,8 @@
            tree) is within the depth limit must get a *complete* tree (`Tree.complete`: no `Truncated`
            node — in particular not the handler's fallback root — and no `Fact{Derived}` leaf).
   Model  : `whyTree` (ILV.Model.Prov), the same chainer model as C21, with `max_depth`, the cycle set
-           `visited`, `max_proofs_per_tuple` and the memo table `seen`.
+           `visited`, `max_proofs_per_tuple` and the memo table `seen` (steps resting on a truncated
+           premise are not memoised).
 -/
 import ILV.Lemmas.ProvComplete
 namespace ILV.Props.C22
@@ -38,21 +39,15 @@ theorem C22_refuted : ¬ C22_statement := by
   revert this
   decide
 
-/-! Witness 2 (known finding `memo_truncated_reuse`): `reach(X) <- f(X)`, `reach(Y) <- reach(X), e(X,Y)`,
-    `f = {1,2}`, `e = {(2,3)}`, limit 3. `reach(3)` has the depth-3 proof reach(3) ← reach(2) ← f(2). While
-    collecting alternative proofs of `reach(1)` at depth 1 the chainer builds `reach(2)` at depth 2, whose
-    premise `f(2)` then sits at the limit and becomes a `Truncated` node; the rule node for `reach(2)` with
-    the truncated child is memoised and reused at depth 1. -/
+/-! The former second witness (finding `memo_truncated_reuse`, fixed: a rule step resting on a
+    `Truncated` premise is no longer memoised): `reach(X) <- f(X)`, `reach(Y) <- reach(X), e(X,Y)`,
+    `f = {1,2}`, `e = {(2,3)}`, limit 3 — `reach(3)` now gets its complete depth-3 proof. -/
 def w2Prog : Program :=
   [⟨⟨"reach", [.var "X"]⟩, [.pos ⟨"f", [.var "X"]⟩]⟩,
    ⟨⟨"reach", [.var "Y"]⟩, [.pos ⟨"reach", [.var "X"]⟩, .pos ⟨"e", [.var "X", .var "Y"]⟩]⟩]
 def w2Base : DB := [("e", [[.i64 2, .i64 3]]), ("f", [[.i64 1], [.i64 2]])]
 def w2M : DB := [("reach", [[.i64 1], [.i64 2], [.i64 3]])]
-
-theorem C22_refuted_memo_truncated : ¬ C22_statement := by
-  intro h
-  have := h w2Prog w2Base w2M "reach" [.i64 3] 3 3 (by decide) (by decide) (by decide) (by decide) (by decide)
-  revert this
+example : (whyTree { rules := w2Prog, base := w2Base, derived := some w2M, maxDepth := 3 } "reach" [.i64 3]).complete = true := by
   decide
 
 /-- **C22_partial (build_complete).** For every program of the fragment `c22Fragment` (decidable:
@@ -65,8 +60,7 @@ theorem C22_refuted_memo_truncated : ¬ C22_statement := by
     root — and no unexplained `Fact{Derived}` leaf. Proof: induction on the depth tower = on the rank;
     the cycle cut never fires (ranks strictly decrease along the `visited` stack), every true sub-goal
     is found among the candidates and has a non-empty proof list, so the derived-fact fallback and the
-    truncation node are never created (ILV.Lemmas.ProvComplete.level_c). The two refutations above
-    need recursion. -/
+    truncation node are never created (ILV.Lemmas.ProvComplete.level_c). The refutation above needs recursion. -/
 theorem C22_partial (prog : Program) (base M : DB) (rk : List (String × Nat)) (rel : String) (t : Tuple)
     (depth : Nat) (hf : c22Fragment prog base M rk = true) (hs : supportedModel prog base M = true)
     (hmem : t ∈ M.get rel ∨ t ∈ base.get rel) (hdepth : rankOf rk rel < depth)
